@@ -9,6 +9,7 @@ import RedisVerif.Model.Redis
                                                                   implementation's clock; the model gets `now` with every op)
     <now> <OP> <args…> ;; <dump>            → "<reply> | <dump of the model's visible keyspace> | ro=<0|1>"
     <now> ADOPT ;; <dump>                   → "adopt"
+    <now> SCRIPT <n> {<OP> <args…> &&}ⁿ ;; <dump>  → like an op: EVAL of n `redis.call`s + `return 'done'` (`Redis.stepScript`)
 
   `<now>` = virtual clock in ms.  The part after `;;` is the IMPLEMENTATION's visible keyspace
   after the command.  The model first answers from ITS OWN state (reply, its own post-state,
@@ -313,6 +314,7 @@ inductive Line
   | reset
   | adopt (now : Nat) (s : State)
   | op (now : Nat) (c : Cmd) (s : State)
+  | script (now : Nat) (cs : List Cmd) (s : State)
 
 def line : P Line := do
   let t ← tok
@@ -327,6 +329,14 @@ def line : P Line := do
       let _ ← tok; let _ ← tok
       let s ← dump now
       pure (.adopt now s)
+    | "SCRIPT" :: _ => do
+      -- `<now> SCRIPT <n> <cmd> && <cmd> && … ;; <dump>`: EVAL of n redis.call's, then return 'done'
+      let _ ← tok
+      let n ← nat
+      let cs ← repeatP n (do let c ← cmd; expect "&&"; pure c)
+      expect ";;"
+      let s ← dump now
+      pure (.script now cs s)
     | _ => do
       let c ← cmd
       expect ";;"
@@ -363,5 +373,9 @@ def stepLine (st : State) (l : String) : State × String :=
   | some (.op now c s) =>
     let r := Redis.step st now c
     (s, s!"{showReply (canonReply c r.2)} | {showDump r.1 now} | ro={b01 (isReadOnly c)}")
+  | some (.script now cs s) =>
+    -- EVAL is not classified read-only by `Command::is_read_only`
+    let r := Redis.stepScript st now cs
+    (s, s!"{showReply r.2} | {showDump r.1 now} | ro=0")
 
 end RedisVerif.Driver.C01
